@@ -26,9 +26,11 @@ def pick_kind(rng, tier, kinds=None):
         s = "kind sqlite batch=%d" % rng.choice([0, 0, 1, 2, 3, 7])
         if tier == "thorough" and rng.random() < 0.15:
             s += " file"
+        if rng.random() < 0.25:
+            s += " obs"          # built with logger, metrics hook and the remaining construction options
         return s
     if k == "ds":
-        return "kind ds chunk=%d" % rng.choice([0, 1, 2, 3, 5])
+        return "kind ds chunk=%d" % rng.choice([0, 1, 2, 3, 5]) + (" obs" if rng.random() < 0.25 else "")
     return "kind mem"
 
 def from_tok(rng, nread_evs, napp):
@@ -160,7 +162,7 @@ def gen_c11(rng, tier, n):
         if rng.random() < 0.3:
             lines.append("append %d" % (nev + 1))
             lines.append("replay - 3 %d - - -" % rng.randint(0, 1))
-        if rng.random() < 0.3 and not (k.startswith("kind ds") and not k.endswith("chunk=0")):
+        if rng.random() < 0.3 and not (k.startswith("kind ds") and "chunk=0" not in k.split()):
             # a bus that has published itself, then events appended behind its back, then a replay on THAT bus from the
             # offset of its own last append: it must deliver what the others appended
             lines += ["pub %d" % (500000 + nev), "read - 0", "append %d" % (nev + 2), "append %d" % (nev + 3), "busreplay @next", "busreplay -"]
